@@ -10,6 +10,7 @@ PKG = 'dependency'
 D = MOD + '/dependency.'
 ROOTS = [D + n for n in ('VerifC06Is', 'VerifC06Set', 'VerifC06Select', 'VerifC06Sat')]
 BOUNDS = {'quick': dict(NN=3, UV=2, RV=1, SET=2), 'thorough': dict(NN=4, UV=3, RV=1, SET=3)}
+JOB_TIMEOUT_S = {'quick': 600, 'thorough': 3600}     # the largest sat job takes about 150 s of CPU on the unchanged tree; a table-driven rewrite of SatisfiedBy took more than 300
 NCH = b'0123456789.~:-a '
 META = dict(
     functions_encoded=['(*Arch).IsWildcard', '(*Arch).Is', '(*ArchSet).Matches', '(*Dependency).GetPossibilities', '(*Dependency).GetAllPossibilities',
